@@ -146,6 +146,8 @@ int main(int argc, char **argv)
 				printf(",%d,%d,%d,%d,%d,%d,%d,%d,", jwks_item_error(it), jwks_item_error_msg(it)[0] != 0, (int)jwks_item_kty(it),
 				       jwks_item_pem(it) != NULL, has_oct, jwks_item_key_bits(it), (int)jwks_item_alg(it), jwks_item_is_private(it));
 				vh_put_jstr(stdout, jwks_item_curve(it));
+				printf(",");
+				{ char mb[72]; snprintf(mb, sizeof(mb), "%.64s", jwks_item_error_msg(it)); vh_put_jstr(stdout, mb); }
 				printf("]");
 			}
 			printf("]]\n");
